@@ -24,8 +24,11 @@ theorem getElem?_snoc {α : Type} (l : List α) (a : α) (i : Nat) :
 def NoT (ctx : Ctx) : Prop := ∀ f ∈ ctx.faults, f.mode ≠ .t
 
 /-- the backend loses no connection during this command: no statement timeout,
-    no call that leaves the connection closed, no ping failure -/
-def Calm (ctx : Ctx) : Prop := ∀ f ∈ ctx.faults, f.mode ≠ .t ∧ f.mode ≠ .z ∧ f.k ≠ .p
+    no call that leaves the connection closed, no ping failure, no failed fetch
+    of the pending rows / results of a streamed answer (since fix 7cb439b the
+    connection of a stream that is given up is closed) -/
+def Calm (ctx : Ctx) : Prop :=
+  ∀ f ∈ ctx.faults, f.mode ≠ .t ∧ f.mode ≠ .z ∧ f.k ≠ .p ∧ ¬(f.mode = .e ∧ (f.k = .m ∨ f.k = .n))
 
 theorem Calm.noT {ctx : Ctx} (h : Calm ctx) : NoT ctx := fun f hf => (h f hf).1
 
@@ -426,6 +429,93 @@ theorem wi_close {c : Nat} (hp : q.p = false) (h : WInv q O M w) (hc : c ∈ O.v
     simp [Conn.afterClose, this.2]
   · intro hp'; rw [hp] at hp'; cases hp'
 
+/-- without backend trouble the fetch of pending rows / results succeeds -/
+theorem callRes_fetch_ok (ctx : Ctx) (hT : Calm ctx) {k : CK} (hk : k = .M ∨ k = .N) (cn : Conn)
+    (hcl : cn.closed = false) : callRes ctx k cn = .ok := by
+  unfold callRes
+  rw [hcl]
+  simp only [Bool.false_eq_true, if_false]
+  cases hf : fault ctx k.fk cn.slice with
+  | none => rfl
+  | some m =>
+    simp only [fault, Option.map_eq_some_iff] at hf
+    obtain ⟨f, hf1, hf2⟩ := hf
+    have hmem := List.mem_of_find?_eq_some hf1
+    have hkk := List.find?_some hf1
+    simp only [Bool.and_eq_true, beq_iff_eq] at hkk
+    obtain ⟨c1, c2, _, c4⟩ := hT f hmem
+    cases m with
+    | e =>
+      exfalso; apply c4
+      refine ⟨hf2, ?_⟩
+      rcases hk with hk | hk <;> subst hk
+      · exact .inl hkk.1
+      · exact .inr hkk.1
+    | t => rcases hk with hk | hk <;> subst hk <;> simp
+    | more => rcases hk with hk | hk <;> subst hk <;> simp
+    | mres => rcases hk with hk | hk <;> subst hk <;> simp
+    | z => exact absurd hf2 c2
+
+theorem call_get (ctx : Ctx) (k : CK) {c : Nat} {cn : Conn} (hcn : w.conns[c]? = some cn) :
+    (call ctx k c w).1.conns[c]? = some (cn.afterCall k (callRes ctx k cn)) ∧
+    (call ctx k c w).2 = callRes ctx k cn := by
+  obtain ⟨hlt, hget⟩ := List.getElem?_eq_some_iff.1 hcn
+  subst hget
+  simp [call, World.emit, hlt]
+
+/-- without backend trouble nothing is pending once `writeOKResultStream` is through -/
+theorem morePending_streamRest_calm (ctx : Ctx) (hT : Calm ctx) {c : Nat} (hp : q.p = true)
+    (h : WInv q O M w) (hc : c ∈ O.vals) : morePending c (streamRest ctx c w) = false := by
+  obtain ⟨sl, hs⟩ := mem_vals.1 hc
+  obtain ⟨cn, hcn, h0, _⟩ := h.out _ hs
+  replace hcn : w.conns[c]? = some cn := hcn
+  have hcl : cn.closed = false := h.open_of_out hp hcn h0
+  have hM := callRes_fetch_ok ctx hT (k := .M) (.inl rfl) cn hcl
+  -- the state after the fetch of the pending rows: nothing pending, not closed
+  have step1 : ∃ (w1 : World) (ok : Bool) (cn1 : Conn),
+      (if moreRows c w then (let (w, r) := call ctx .M c w; (w, r.isOk)) else (w, true)) = (w1, ok) ∧
+      ok = true ∧ w1.conns[c]? = some cn1 ∧ cn1.more = false ∧ cn1.closed = false ∧ cn1.moreRes = cn.moreRes := by
+    cases hmore : cn.more with
+    | false =>
+      refine ⟨w, true, cn, ?_, rfl, hcn, hmore, hcl, rfl⟩
+      simp [moreRows, hcn, hmore]
+    | true =>
+      obtain ⟨g1, g2⟩ := call_get ctx .M hcn
+      rw [hM] at g1 g2
+      refine ⟨(call ctx .M c w).1, true, cn.afterCall .M .ok, ?_, rfl, g1, ?_, ?_, ?_⟩
+      · simp only [moreRows, hcn, hmore, if_true]
+        rw [show (call ctx .M c w) = ((call ctx .M c w).1, (call ctx .M c w).2) from rfl, g2]
+        rfl
+      · simp [Conn.afterCall]
+      · simp [Conn.afterCall, hcl]
+      · simp [Conn.afterCall]
+  obtain ⟨w1, ok, cn1, e1, hok, hcn1, hm1, hcl1, hr1⟩ := step1
+  unfold streamRest
+  rw [e1]
+  subst hok
+  simp only [Bool.true_and]
+  cases hres : cn1.moreRes with
+  | false =>
+    simp [morePending, moreResults, moreRows, hcn1, hm1, hres]
+  | true =>
+    have hN := callRes_fetch_ok ctx hT (k := .N) (.inr rfl) cn1 hcl1
+    obtain ⟨g1, _⟩ := call_get (w := w1) ctx .N hcn1
+    rw [hN] at g1
+    simp only [moreResults, hcn1, hres, if_true, morePending, moreRows, g1]
+    simp [Conn.afterCall, hm1]
+
+/-- `writeOKResultStream` and the deferred close of `writeResponse` of a connection whose
+    stream was given up -/
+theorem wi_closeGivenUp (ctx : Ctx) (hT : QH q ctx) {c : Nat} (h : WInv q O M w) (hc : c ∈ O.vals)
+    (hs : WInv q O M (streamRest ctx c w)) : WInv q O M (closeGivenUp c (streamRest ctx c w)) := by
+  unfold closeGivenUp
+  split
+  · rename_i hm
+    cases hp : q.p with
+    | true => rw [morePending_streamRest_calm ctx (hT.p hp) hp h hc] at hm; cases hm
+    | false => exact wi_close hp hs hc
+  · exact hs
+
 theorem wi_recycle {c : Nat} (h : WInv q O M w) (hc : c ∈ O.vals) : WInv q (drop c O) M (recycle c w) := by
   obtain ⟨s, hs⟩ := mem_vals.1 hc
   obtain ⟨cn, hcn, h0, _⟩ := h.out _ hs
@@ -591,7 +681,7 @@ theorem call_ping_ok (ctx : Ctx) (hp : q.p = true) (hT : QH q ctx) {c : Nat} (h 
       obtain ⟨f, hf1, _⟩ := hf
       have hk := List.find?_some hf1
       simp only [CK.fk, Bool.and_eq_true, beq_iff_eq] at hk
-      exact ((hT.p hp) f (List.mem_of_find?_eq_some hf1)).2.2 hk.1
+      exact ((hT.p hp) f (List.mem_of_find?_eq_some hf1)).2.2.1 hk.1
   rw [hno]
 
 theorem wi_pingAll (ctx : Ctx) (hT : QH q ctx) :
